@@ -183,6 +183,7 @@ def run_case(desc, V):
         shape = tuple(desc['shape'])
         X = _amv(alg, V, 'X', desc['ka'], shape, desc['container'])
         before, _ = _entries(X)
+        stale = [~X, X.involute(), -X, X + X]          # computed BEFORE the assignment: nothing of it may stick to X
         idx = eval(desc['idx'])
         sub_shape = np.empty(shape)[idx if isinstance(idx, tuple) else (idx,)].shape
         # right-hand side with fresh labels
@@ -209,6 +210,11 @@ def run_case(desc, V):
             exp[idx if isinstance(idx, tuple) else (idx,)] = new[k]
             for pos, e in enumerate(exp.ravel()):
                 claims.append(Eq(f'setitem[{k},{pos}]', after[(k, pos)], e, fkey='setitem|entries'))
+        # operators applied AFTER the assignment see the updated coefficients (no stale per-instance caches)
+        from kingdon.multivector import MultiVector
+        Xf = MultiVector.fromkeysvalues(alg, tuple(X.keys()), [np.array(v, dtype=object) if hasattr(v, 'shape') else v for v in X.values()])
+        for name, got, want in (('reverse', ~X, ~Xf), ('involute', X.involute(), Xf.involute()), ('neg', -X, -Xf), ('add', X + X, Xf + Xf)):
+            claims += _cmp_mv(f'after-setitem:{name}', got, want, fkey='setitem|operator-after-assignment')
         return claims
     if kind == 'itermv':
         shape = tuple(desc['shape'])
